@@ -105,3 +105,24 @@ package atree
 //@   ensures len(s.childrenHeaders) == len(m.childrenHeaders)
 //@   ensures forall k :: 0 <= k && k < len(m.childrenHeaders) ==> s.childrenHeaders[k] == m.childrenHeaders[k]
 //@   ensures s.header == m.header
+
+//@ # ---- decoded array leaf (C06, C07, C08): what the version-1 decoder returns is a well-formed standalone leaf for the register's
+//@ # identifier: root exactly when the head says so, counted and sized from the decoded elements (prefix 5 for a root, 21 otherwise)
+//@ func newArrayDataSlabFromDataV1@content(id, h, data, decMode, decodeStorable, decodeTypeInfo) (slab, err)  serves C06 C07 C08
+//@   option assume-nonnil-params true
+//@   ensures[C07 C08] err == nil ==> slab != nil && fresh(slab) && slab.header.slabID == id && !slab.inlined && (slab.extraData != nil) == bit(h[1], 7)
+//@   ensures[C06] err == nil ==> slab.header.count == len(slab.elements) && slab.header.size == ite(bit(h[1], 7), 5, 21) + sum(bs, slab.elements, len(slab.elements))
+//@   ensures[C07] err == nil && !(h[0] / 16 != 0 && bit(h[0], 1)) && !(h[0] / 16 == 0 && !bit(h[1], 7)) ==> slab.next == SlabIDUndefined
+//@   ensures[C07] err == nil ==> (forall k :: 0 <= k && k < len(slab.elements) ==> slab.elements[k] != nil)
+//@   modifies heap
+//@   loop 1: invariant 0 <= i && i <= len(elements) && slabSize == ite(bit(h[1], 7), 5, 21) + sum(bs, elements, i) && (forall k :: 0 <= k && k < i ==> elements[k] != nil)
+
+//@ # ---- decoded map leaf (C06, C07, C08): a standalone leaf for the register's identifier; root, size-limit and collision-group status
+//@ # are those of the head; the size is the head (2), the sibling link (16, non-root) and the decoded element list
+//@ func newMapDataSlabFromDataV1@content(id, h, data, decMode, decodeStorable, decodeTypeInfo) (slab, err)  serves C06 C07 C08
+//@   option assume-nonnil-params true
+//@   ensures[C07 C08] err == nil ==> slab != nil && fresh(slab) && slab.header.slabID == id && !slab.inlined && (!bit(h[1], 7) ==> slab.extraData == nil) &&
+//@        slab.anySize == bit(h[1], 5) && slab.collisionGroup == ((h[1] / 8) % 4 == 1 && h[1] % 8 == 3)
+//@   ensures[C06] err == nil ==> slab.header.size == ite(bit(h[1], 7), 2, 18) + elsSize(slab.elements)
+//@   ensures[C07] err == nil && !(h[0] / 16 != 0 && bit(h[0], 1)) && !(h[0] / 16 == 0 && !bit(h[1], 7)) ==> slab.next == SlabIDUndefined
+//@   modifies heap
